@@ -94,7 +94,8 @@ pub fn build(
     };
 
     let mut fields: Vec<(String, isize)> = vec![];
-    let mut last_field = 0;
+    // The value of the next case if it has no explicit value; `None` once it no longer fits
+    let mut last_field = Some(0);
     let mut default_index = None;
     for statement in &definition.statements {
         let grammar::EnumStatement {
@@ -107,7 +108,9 @@ pub fn build(
             Some(_) => anyhow::bail!(
                 "unsupported enum value for case `{name}` of enum `{resolvee_path}`: {expr:?}"
             ),
-            None => last_field,
+            None => last_field.with_context(|| {
+                format!("the value of case `{name}` of enum `{resolvee_path}` overflows")
+            })?,
         };
         fields.push((name.0.clone(), value));
 
@@ -123,7 +126,7 @@ pub fn build(
             }
         }
 
-        last_field = value + 1;
+        last_field = value.checked_add(1);
     }
 
     let mut singleton = None;
